@@ -1,6 +1,7 @@
 package io
 
 import (
+	"errors"
 	"io"
 	"os"
 
@@ -50,6 +51,10 @@ func (f *FileStream) ReadAll() ([]rune, error) {
 			break
 		}
 		result = append(result, res...)
+	}
+	// bytes left over at the end of the file: a truncated multi-byte character
+	if len(f.encBuffer) > 0 {
+		return []rune{}, zerr.ReadFileError(errors.New("文件内容不是有效的 utf-8 编码"), f.path)
 	}
 
 	return result, nil
